@@ -353,8 +353,7 @@ def r34(e: Engine, rep: Report, rule: str):
                     helper = True
         if raw is not None and not helper:
             rep.bad(rule, where,
-                    'stored marks merged with new indexes by `%s`'
-                    % ' '.join(ast.unparse(raw).split()),
+                    'stored marks merged with the new indexes untranslated',
                     'get() removes the stored marks from the ORIGINAL '
                     'recipient list, but the queue computes the new indexes '
                     'on the REDUCED list that get() returned; merging the '
